@@ -338,7 +338,7 @@ fn tree_str(t: &Tree, leaf_ms: &[String]) -> String {
     }
 }
 
-const OPS: u8 = 13;
+const OPS: u8 = 14;
 
 fn gen_scenario(seed: u64, iter: u64) -> Scenario {
     let mut r = Rng(mix(seed, iter));
@@ -463,7 +463,7 @@ fn check_spend_info(tr: &Tr<XOnlyPublicKey>, r: &Reference, scripts_by_pos: Opti
     }
 }
 
-fn run_ops(tr: &Arc<Tr<XOnlyPublicKey>>, ops: &[u8], ex: &Expect, fresh: &Tr<XOnlyPublicKey>, twin: &Arc<Tr<XOnlyPublicKey>>, tid: usize) {
+fn run_ops(tr: &Arc<Tr<XOnlyPublicKey>>, ops: &[u8], ex: &Expect, fresh: &Tr<XOnlyPublicKey>, twin: &Arc<Tr<XOnlyPublicKey>>, other: &Arc<Tr<XOnlyPublicKey>>, tid: usize) {
     let mut spk_expect = vec![0x51, 0x20];
     spk_expect.extend_from_slice(&ex.reference.output);
     for op in ops {
@@ -563,6 +563,23 @@ fn run_ops(tr: &Arc<Tr<XOnlyPublicKey>>, ops: &[u8], ex: &Expect, fresh: &Tr<XOn
                 assert_eq!(c.cmp(&**tr), std::cmp::Ordering::Equal);
                 assert_eq!(hash_of(&c), hash_of(&**tr));
             }
+            13 => {
+                // overwrite an object of ANOTHER descriptor, whose cache is filled, with clone_from
+                // (directly and through Vec / Option), then use it as the descriptor under test
+                let mut t = (**other).clone();
+                let _ = t.spend_info();
+                t.clone_from(&**tr);
+                assert!(t == **tr, "clone_from result is not equal to its source");
+                check_spend_info(&t, &ex.reference, Some(&ex.scripts_by_pos), "clone_from into a warm object");
+                let mut v = vec![(**other).clone()];
+                let _ = v[0].spend_info();
+                v.clone_from(&vec![(**tr).clone()]);
+                check_spend_info(&v[0], &ex.reference, Some(&ex.scripts_by_pos), "Vec::clone_from into a warm object");
+                let mut o = Some((**other).clone());
+                let _ = o.as_ref().unwrap().script_pubkey();
+                o.clone_from(&Some((**tr).clone()));
+                assert_eq!(o.as_ref().unwrap().script_pubkey().as_bytes(), &spk_expect[..], "Option::clone_from: script_pubkey of the overwritten descriptor");
+            }
             11 => {
                 // two cached objects compared in opposite orders by different threads
                 let _ = tr.spend_info();
@@ -616,16 +633,22 @@ fn scenario_closure(sc: Scenario) -> Result<impl Fn() + Send + Sync + 'static, S
             let _ = c.spend_info();
             c.clone()
         });
+        // a different descriptor (used as the overwritten target of clone_from)
+        let other = Arc::new(match Descriptor::<XOnlyPublicKey>::from_str(&format!("tr({},{{pk({}),pk({})}})", key(sc.internal + 77), key(sc.internal + 78), key(sc.internal + 79))).unwrap() {
+            Descriptor::Tr(t) => t,
+            _ => unreachable!(),
+        });
         let mut hs = vec![];
         for t in 1..sc.n_threads {
+            let other = other.clone();
             let tr = tr.clone();
             let ex = ex.clone();
             let sc2 = sc.clone();
             let fresh = fresh.clone();
             let twin = twin.clone();
-            hs.push(thread::spawn(move || run_ops(&tr, &sc2.ops[t], &ex, &fresh, &twin, t)));
+            hs.push(thread::spawn(move || run_ops(&tr, &sc2.ops[t], &ex, &fresh, &twin, &other, t)));
         }
-        run_ops(&tr, &sc.ops[0], &ex, &fresh, &twin, 0);
+        run_ops(&tr, &sc.ops[0], &ex, &fresh, &twin, &other, 0);
         for h in hs {
             h.join().expect("thread panicked");
         }
@@ -787,7 +810,7 @@ fn main() {
                     "runs_per_hour": if wall > 0.0 { (executions as f64 / wall * 3600.0) as u64 } else { 0 },
                     "tree_shapes": shapes,
                     "max_leaf_depth_reached": max_depth,
-                    "operations_executed_by_kind": {"spend_info": op_counts[0], "script_pubkey": op_counts[1], "address": op_counts[2], "leaves": op_counts[3], "clone": op_counts[4], "eq_cmp_hash": op_counts[5], "translate_identity": op_counts[6], "translate_rename": op_counts[7], "print_parse": op_counts[8], "clone_drop": op_counts[9], "eq_self_and_cached_clone": op_counts[10], "eq_twin_opposite_orders": op_counts[11], "cmp_hash_twin_opposite_orders": op_counts[12]},
+                    "operations_executed_by_kind": {"spend_info": op_counts[0], "script_pubkey": op_counts[1], "address": op_counts[2], "leaves": op_counts[3], "clone": op_counts[4], "eq_cmp_hash": op_counts[5], "translate_identity": op_counts[6], "translate_rename": op_counts[7], "print_parse": op_counts[8], "clone_drop": op_counts[9], "eq_self_and_cached_clone": op_counts[10], "eq_twin_opposite_orders": op_counts[11], "cmp_hash_twin_opposite_orders": op_counts[12], "clone_from_into_warm_object": op_counts[13]},
                     "faults": "schedule interleavings only (the library has no I/O); deadlock and lock poisoning are reported by shuttle as failures",
                     "components": {"real_code": ["miniscript Tr / TapTree / TrSpendInfo with its cache Mutex replaced by shuttle::sync::Mutex (hook H1)"], "stubs": ["BIP341 reference (R4) computed outside the execution", "thread scheduler (shuttle)"]}
                 },
